@@ -418,15 +418,35 @@ def cross_check(force=False):
                                       poly_trend=2, v0_offsets=[dv])
     data, ids, M = validate_prepare_data([d1, d2], prior.poly_trend, prior.n_offsets)
     chunk = np.array([[7.3, 0.31, 1.1, 2.2, 0.7], [23.0, 0.0, 0.3, 4.0, 0.0], [3.1, 0.8, 5.0, 0.5, 2.5]])
+    # second problem: a K prior whose cap binds (period prior in years, P0 in days), non-zero K mean, quadratic trend
+    from thejoker.distributions import FixedCompanionMass
+    with pm.Model() as m2:
+        P = tj.units.with_unit(pm.Uniform("P", 0.001, 3.0), u.yr)
+        e = tj.units.with_unit(pm.Uniform("e", 0.0, 0.99), u.one)
+        K = tj.units.with_unit(FixedCompanionMass("K", P=P, e=e, sigma_K0=40 * u.km / u.s, P0=30 * u.day, mu=1.5, max_K=4 * u.km / u.s), u.km / u.s)
+        prior2 = tj.JokerPrior.default(sigma_v=[50 * u.km / u.s, 2 * u.km / u.s / u.day, 0.05 * u.km / u.s / u.day ** 2], s=0.3 * u.km / u.s,
+                                       poly_trend=3, pars={"P": P, "e": e, "K": K}, model=m2)
+    data2, ids2, M2 = validate_prepare_data(d1, prior2.poly_trend, prior2.n_offsets)
+    # third problem: a custom Normal K prior together with survey offsets
+    with pm.Model() as m3:
+        dv3 = tj.units.with_unit(pm.Normal("dv0_1", 0.5, 3.0), u.km / u.s)
+        K3 = tj.units.with_unit(pm.Normal("K", 2.0, 7.0), u.km / u.s)
+        prior3 = tj.JokerPrior.default(P_min=2 * u.day, P_max=64 * u.day, sigma_v=50 * u.km / u.s, s=0.0 * u.km / u.s, v0_offsets=[dv3],
+                                       pars={"K": K3}, model=m3)
+    data3, ids3, M3 = validate_prepare_data([d1, d2], prior3.poly_trend, prior3.n_offsets)
     vals = []
     for mod in (fl, shim):
-        h = mod.CJokerHelper(data, prior, M)
-        ll = np.array(h.batch_marginal_ln_likelihood(chunk))
-        g = np.random.default_rng(1)
-        ps = np.array(h.batch_get_posterior_samples(chunk, 1, g)[0])
-        vals.append((ll, ps))
-    dll = float(np.max(np.abs(vals[0][0] - vals[1][0])))
-    dps = float(np.max(np.abs(vals[0][1] - vals[1][1])))
+        lls, pss = [], []
+        for (dd, pp, MM) in ((data, prior, M), (data2, prior2, M2), (data3, prior3, M3)):
+            h = mod.CJokerHelper(dd, pp, MM)
+            lls.append(np.array(h.batch_marginal_ln_likelihood(chunk)))
+            g = np.random.default_rng(1)
+            pss.append(np.array(h.batch_get_posterior_samples(chunk, 1, g)[0]).ravel())
+        vals.append((np.concatenate(lls), np.concatenate(pss)))
+    with np.errstate(all="ignore"):
+        both_bad = ~np.isfinite(vals[0][1]) & ~np.isfinite(vals[1][1])
+        dll = float(np.nanmax(np.abs(vals[0][0] - vals[1][0])))
+        dps = float(np.max(np.where(both_bad, 0.0, np.abs(vals[0][1] - vals[1][1])))) if vals[0][1].size else 0.0
     INFO["shim_vs_compiled"] = {"max_abs_diff_ll": dll, "max_abs_diff_posterior_draw": dps}
     if not (dll < 1e-9 and dps < 1e-7):
         raise KernelError("compiled kernel (%s) and the rendering of the current .pyx disagree: %r" % (INFO["kernel"], INFO["shim_vs_compiled"]))
